@@ -884,5 +884,14 @@ def replay(ctx, case):
     if not valid_case(case):
         return None
     os.makedirs(SCRATCH, exist_ok=True)
-    _, f = judge(case)
+    try:
+        _, f = judge(case)
+    finally:
+        # this process's scratch directory (replays run after the shards have cleaned up)
+        if Workdir._path:
+            shutil.rmtree(Workdir._path, ignore_errors=True)
+        try:
+            os.rmdir(SCRATCH)
+        except OSError:
+            pass
     return f
